@@ -51,6 +51,11 @@ abbrev SINTVAR_MAX : Nat := Dmr.Gen.Mbxml.SINTVAR_MAX
 
 /-! ## read_uintvar -/
 
+/-- `k` more octets consumed -/
+def bump (k : Nat) : R (Nat × Nat) → R (Nat × Nat)
+  | .ok (v, n) => .ok (v, n + k)
+  | .error e => .error e
+
 /-- the `while True` loop of `read_uintvar` on the octets from the read position on; `acc` is
 `uintvar` so far.  Result: the value and the number of octets consumed.  Running off the end is the
 `IndexError` of `data[idx]`. -/
@@ -59,9 +64,7 @@ def readUGo : Bytes → Nat → R (Nat × Nat)
   | b :: rest, acc =>
     let acc' := acc * 128 + b % 128          -- (uintvar << 7) + (this & 0x7F)
     if b / 128 % 2 = 0 then .ok (acc', 1)    -- this & 0x80 == 0
-    else match readUGo rest acc' with
-      | .ok (v, n) => .ok (v, n + 1)
-      | .error e => .error e
+    else bump 1 (readUGo rest acc')
 
 /-- `MBXML.read_uintvar(data, idx)` = (value, new idx) -/
 def readU (data : Bytes) (idx : Nat) : R (Nat × Nat) :=
